@@ -9,7 +9,9 @@ Recs0 == { <<>> }
 Recs1 == { <<r>> : r \in Full1 }
 Recs2 == { <<a, b>> : a \in Small, b \in Small }
 SmallQ == { R(p, "", po, hint, e, <<"h2">>, FALSE) : p \in {1, 2}, po \in {0, 8443}, hint \in BOOLEAN, e \in {"nil", "E2"} }
-Recs2q == { <<a, b>> : a \in SmallQ, b \in SmallQ }
+WithAlpn(r, al) == [r EXCEPT !.alpn = al]
+\* the two records carry different ALPN lists (the later one shorter), both with the default protocol
+Recs2q == { <<WithAlpn(a, <<"h3", "h2">>), b>> : a \in SmallQ, b \in SmallQ }
 Net2 == {"tcp", "tcp4"}
 RecsQ == Recs0 \cup Recs1
 RecsT == Recs0 \cup Recs1 \cup Recs2
